@@ -7,7 +7,7 @@ import pandas as pd
 
 LAYOUTS = ('single_deck', 'two_decks', 'three_decks', 'sparse', 'multi_hit', 'unequal_sampling', 'coincident', 'all_nan',
            'single_hit', 'identical_heights', 'two_values', 'vv', 'high_and_low', 'thick', 'type_gt3', 'many_ceilos',
-           'missing_lower_types', 'repeated_type1')
+           'missing_lower_types', 'repeated_type1', 'near_identical_heights', 'creeping_deck')
 
 
 def _df(rows):
@@ -31,7 +31,8 @@ def scene(k: int, seed: int = 0):
     decks = {'single_deck': [2000], 'two_decks': [1500, 4200], 'three_decks': [800, 2600, 7000], 'sparse': [3000],
              'multi_hit': [1200, 2500], 'unequal_sampling': [1800, 5000], 'coincident': [2200], 'identical_heights': [3300],
              'two_values': [1000], 'vv': [600], 'high_and_low': [900, 14000, 30000], 'thick': [2000], 'type_gt3': [500, 1500, 2500, 3500, 4500],
-             'many_ceilos': [2500, 6000], 'missing_lower_types': [1200, 2600, 4000], 'repeated_type1': [1500, 3000]}.get(layout, [])
+             'many_ceilos': [2500, 6000], 'missing_lower_types': [1200, 2600, 4000], 'repeated_type1': [1500, 3000],
+             'near_identical_heights': [2900], 'creeping_deck': [2500]}.get(layout, [])
     for ci, c in enumerate(names):
         n_c = nt if layout != 'unequal_sampling' else max(1, nt // (ci + 1))
         offs = 0.0 if layout == 'coincident' else rng.uniform(0, span / max(n_c, 1) / 3)
@@ -54,9 +55,9 @@ def scene(k: int, seed: int = 0):
                 continue
             hit_no = 0
             for di, base in enumerate(decks):
-                p = {'sparse': 0.15, 'single_deck': 0.9}.get(layout, 0.7)
+                p = {'sparse': 0.15, 'single_deck': 0.9, 'near_identical_heights': 0.95, 'creeping_deck': 0.95}.get(layout, 0.7)
                 if layout in ('multi_hit', 'type_gt3', 'three_decks', 'two_decks', 'high_and_low', 'many_ceilos', 'unequal_sampling',
-                              'missing_lower_types', 'repeated_type1'):
+                              'missing_lower_types', 'repeated_type1', 'near_identical_heights', 'creeping_deck'):
                     want = rng.random() < p
                 else:
                     want = (di == 0 and rng.random() < p)
@@ -67,6 +68,12 @@ def scene(k: int, seed: int = 0):
                     h = float(base)
                 elif layout == 'two_values':
                     h = float(base + 300 * (ti % 2))
+                elif layout == 'near_identical_heights':
+                    # the same level converted from metres in two ways: two values about 1e-4 ft apart
+                    m = round(base * 0.3048, 1)
+                    h = m * 3.28084 if (ti + ci) % 2 else m / 0.3048
+                elif layout == 'creeping_deck':
+                    h = float(base) + 0.001 * ti
                 elif layout == 'thick':
                     h = base + rng.uniform(0, 1500)
                 else:
